@@ -242,7 +242,12 @@ func evalC20(c *engine.Case) engine.Verdict {
 				break
 			}
 			root := engine.VID(L[0])
-			tref, _ := engine.SingleSource(n, w, root)
+			tref, representable := engine.SingleSource(n, w, root)
+			if !representable {
+				// the true distance of some vertex does not fit an int
+				v.Class("domain-miss:distance-not-representable")
+				break
+			}
 			checkPaths(&v, "TopoShortestPath", g, vs, w, root, tref, dist, edgeTo, true)
 			if v.Fail != "" {
 				break
@@ -308,6 +313,9 @@ func evalC20(c *engine.Case) engine.Verdict {
 	if gc.Uncmp {
 		v.Class("non-comparable-vertex-values")
 	}
+	if gc.HashKey {
+		v.Class("hash-codes-that-are-hashable-themselves")
+	}
 	if n > 24 {
 		v.Class("vertices>24")
 	}
@@ -319,6 +327,14 @@ func evalC20(c *engine.Case) engine.Verdict {
 func genC20(g engine.G) *engine.Case {
 	kind := engine.Pick(g, []string{"any", "any", "dag", "rooted"})
 	gc := engine.GenGraphCase(g, kind, 16, 50)
+	if kind == "rooted" && g.Pct(12) {
+		// weights close to the largest int (see C18)
+		const maxInt = int(^uint(0) >> 1)
+		pal := []int{0, 0, 1, 2, 5, maxInt, maxInt - 1, maxInt - 5, maxInt / 2, maxInt/2 + 1, maxInt / 3}
+		for i := range gc.Edges {
+			gc.Edges[i][2] = engine.Pick(g, pal)
+		}
+	}
 	if g.Pct(60) {
 		k := g.Int(1, 3)
 		for i := 0; i < k; i++ {
